@@ -206,21 +206,29 @@ impl Engine for C13 {
 	fn meta(&self, _tier: Tier) -> Meta {
 		Meta {
 			level: "model_checking",
-			rule: "snapshot exploration of every parent-before-child delivery history (both reorg directions, so every rule is evaluated in process_block and again inside rewind_and_apply_fork) of two universes: (1) coinbase spends one below / at / above creation height + maturity on the same fork, on the other fork and with the coinbase below the fork point, forks with different output counts per height, height-locked kernels one below / at / above their lock height on both forks; (2) with NRD enabled (header version 4+), duplicate-excess NRD kernels r-1 / r / r+1 blocks apart on one fork, the duplicate on the other fork where no first instance exists, and after rewinds. Blocks one below a threshold are probes at every state where their parent is accepted. Oracle: process_block accepts iff the rule model over the fork tree (creation height on that fork, lock height, last same-excess NRD height on that fork) accepts.",
+			rule: "snapshot exploration of every parent-before-child delivery history (both reorg directions, so every rule is evaluated in process_block and again inside rewind_and_apply_fork) of two universes: (1) coinbase spends one below / at / above creation height + maturity on the same fork, on the other fork and with the coinbase below the fork point, forks with different output counts per height, height-locked kernels one below / at / above their lock height on both forks; (2) with NRD enabled (header version 4+), duplicate-excess NRD kernels r-1 / r / r+1 blocks apart on one fork, the duplicate on the other fork where no first instance exists, and after rewinds. Blocks one below a threshold are probes at every state where their parent is accepted. Oracle: process_block accepts iff the rule model over the fork tree (creation height on that fork, lock height, last same-excess NRD height on that fork) accepts. (pool) every state (all interleavings of next main body / next fork body / next main header / next fork header) of a two-fork universe with different output counts per height; at each state every coinbase spend and every height-locked spend is offered to a fresh TransactionPool and add_to_pool must answer exactly as the rule model for the NEXT block on the body head.",
 			assumptions: vec![
 				"AutomatedTesting: maturity 3, header version 4 from height 9".into(),
-				"pool admission clauses of the property are checked by C14's pool explorer".into(),
+				"the pool admission clauses are decided by part `pool` (C14's pool explorer on the two-fork universe with headers ahead of / beside the bodies)".into(),
 			],
 			exhaustive: true,
 		}
 	}
 	fn parts(&self, _tier: Tier) -> Vec<(&'static str, usize)> {
-		vec![("maturity-locks", 8), ("maturity-locks-v5", 8), ("nrd", 8)]
+		vec![("maturity-locks", 8), ("maturity-locks-v5", 8), ("nrd", 8), ("pool", 1)]
 	}
 	fn run_part(&self, part: &str, tier: Tier, shard: usize, n: usize) -> Report {
+		if part == "pool" {
+			// the pool-admission clauses: C14's engine, part c13-pool (its worker processes are
+			// children of this one)
+			return crate::c14::run_part("c13-pool", tier);
+		}
 		run(part, tier, shard, n)
 	}
 	fn replay(&self, case: &Value) -> Result<String, String> {
+		if case.get("part").and_then(|p| p.as_str()) == Some("c13-pool") {
+			return crate::Engine::replay(&crate::c14::C14, case);
+		}
 		uni::init_thread();
 		let sc = uni::Scratch::new("replay");
 		let inst = case["instance"].as_str().unwrap_or("");
